@@ -159,6 +159,19 @@ CHECKS["C18"] = dict(
     note=TRUST + "itertools.product / islice contracts assumed (lexicographic order, laziness); finite-sum algebra (extensionality, homogeneity, range split) "
          "in the reduction matcher; integrand vectorises over its last argument; number of domains is instantiated, not symbolic.",
     technique="contract-based deductive verification: AST symbolic execution with lazy symbolic sequences, loop/generator contracts (cut points), reduction matching, NIA lemma chains, z3; exhaustive small-size native layer as labelled stand-in")
+CHECKS["C05"] = dict(
+    category="proof",
+    text="AtomGrid with a symbolic number of shells, symbolic radial rule, per-shell degrees, seed and centre; AngularGrid and scipy's Rotation by "
+         "contract: _generate_atomic_grid under a loop contract (functional cut point, ghost prefix offsets, ragged concatenation): points of shell s "
+         "at the table offset are r_s times the (rotated) unit grid, weights w_s r_s^2 times the angular weights, index table = prefix sums, degree "
+         "list = degrees actually used; __init__ (stores the result, single degree broadcast, seed/centre/type validation, points = stored + centre); "
+         "get_shell_grid returns exactly the stored segment relative to the centre (with/without r^2, same rotation); orthogonal images keep radii; "
+         "sector map (1-4 boundaries: radius inside a sector gets that sector's supported degree, never coarser), from_pruned wiring. Preset tables, "
+         "factorised integrals, the four methods' data and scipy's seeding are decided by the bounded/exhaustive layer (all presets x elements).",
+    design="8/C05",
+    note=TRUST + "AngularGrid contract (data keyed by the least supported degree >= request, C02/C12); Rotation.random(seed).as_matrix() a function of the seed "
+         "with orthonormal rows; ragged vstack/hstack semantics with monotone prefix offsets; recorded finding: sg_3 silicon table.",
+    technique="contract-based deductive verification: AST symbolic execution with loop contracts (functional cut points, ghost offsets), callee contracts, z3 with index case analysis; bounded/exhaustive native layer as labelled stand-in")
 BOUNDED_ONLY = {
     "C09": ("8/C09", "band-limited decomposition/interpolation on atomic grids: angular integration, radial-component splines through knots, interpolant reproduces grid values, derivative self-consistency, polynomial reproduction, molecular interpolation"),
     "C07": ("8/C07", "molecular grid = weighted concatenation of atomic grids: index table, segments, weights = atweights x aim, views with store on/off, fan-out of from_size/from_preset/from_pruned against hand-built grids, default radial grids, end-to-end 1% clause on presets"),
